@@ -4,6 +4,7 @@ import EinoV.Model.C03Loop
 import EinoV.Model.C03Fail
 import EinoV.Expected.C03
 import EinoV.Oracle.C03Branch
+import EinoV.Oracle.C03Cancel
 
 /-
   Oracle for C03.  Two case kinds:
@@ -41,6 +42,9 @@ import EinoV.Oracle.C03Branch
       failing node bodies (`fRun`, `Model/C03Fail.lean`, with the expected value `true` of the
       fact `waitAllLoops`): does the run fail, which node's error is reported, the supersteps in
       completion order, what has been started / received when the run returns, the result.
+
+  {"kind":"cancel",…same graph…,"eager":b,"priority":[keys],"cancel":{"phase","node"}}   runs whose
+      context becomes done at a chosen position (`cRun`): see `Oracle/C03Cancel.lean`.
 
   {"kind":"brjoin","w":workflow,"input":s,"orders":[[keys]]}   Workflows with branches under
       several completion priorities, evaluated on the shared engine model (`runEager`): see
@@ -310,6 +314,7 @@ def handle (c : Json) : JE Json := do
   match (← J.str c "kind") with
   | "failstep" => handleFailstep c
   | "brjoin" => C03Branch.handle c
+  | "cancel" => C03Cancel.handle c
   | "tmtrace" => handleTrace c
   | "run" => handleRun c
   | "eager" => handleEager c
